@@ -132,13 +132,42 @@ def extract(tree):
     return tab, c, libm_log2_table()
 
 
+def extract_pp(tree):
+    """number_to_string_b (pp.c): the integer window test and the format used in each branch; print_jdn_one's number path"""
+    import subprocess
+    src = csrc.strip_comments(csrc.read(tree, "src/core/pp.c"))
+    body = csrc.func_body(src, "number_to_string_b")
+    m = _need(r"const\s+char\s*\*fmt\s*=\s*\(\s*x\s*==\s*floor\s*\(\s*x\s*\)\s*&&\s*x\s*<=\s*JANET_INTMAX_DOUBLE\s*&&\s*x\s*>=\s*JANET_INTMIN_DOUBLE\s*\)\s*\?\s*\"%\.(\d+)f\"\s*:\s*\(\s*\"%\.\"\s*STR\s*\(\s*DBL_DIG\s*\)\s*\"g\"\s*\)\s*;",
+              body, "number_to_string_b: format selection")
+    fixed_prec = int(m.group(1))
+    _need(r"if\s*\(\s*x\s*==\s*0\.0\s*\)\s*\{\s*count\s*=\s*1\s*;\s*buffer->data\[buffer->count\]\s*=\s*'0'\s*;\s*\}\s*else\s*\{\s*count\s*=\s*snprintf\s*\(\s*\(char\s*\*\)\s*buffer->data\s*\+\s*buffer->count\s*,\s*BUFSIZE\s*,\s*fmt\s*,\s*x\s*\)\s*;",
+          body, "number_to_string_b: zero special case / snprintf")
+    jdn = csrc.func_body(src, "print_jdn_one")
+    _need(r"case\s+JANET_NUMBER\s*:.*?double\s+num\s*=\s*janet_unwrap_number\s*\(\s*x\s*\)\s*;\s*if\s*\(\s*isnan\s*\(\s*num\s*\)\s*\)\s*return\s+1\s*;\s*if\s*\(\s*isinf\s*\(\s*num\s*\)\s*\)\s*return\s+1\s*;\s*janet_buffer_dtostr\s*\(\s*S->buffer\s*,\s*num\s*\)\s*;\s*break\s*;",
+          jdn, "print_jdn_one: numbers go through janet_buffer_dtostr")
+    hdr = csrc.read(tree, "src/include/janet.h")
+    mx = _need(r"#define\s+JANET_INTMAX_DOUBLE\s+([0-9.]+)", hdr, "JANET_INTMAX_DOUBLE")
+    mn = _need(r"#define\s+JANET_INTMIN_DOUBLE\s+\(\s*-([0-9.]+)\s*\)", hdr, "JANET_INTMIN_DOUBLE")
+    imax, imin = float(mx.group(1)), float(mn.group(1))
+    if imax != int(imax) or imin != int(imin):
+        raise ExtractError("JANET_INTMAX/INTMIN_DOUBLE are not integers")
+    # DBL_DIG of the compiler in use
+    r = subprocess.run(["gcc", "-E", "-dM", "-include", "float.h", "-x", "c", "/dev/null"], stdout=subprocess.PIPE)
+    md = re.search(r"#define\s+__DBL_DIG__\s+(\d+)", r.stdout.decode())
+    if not md:
+        raise ExtractError("DBL_DIG not found")
+    return dict(intMaxDouble=int(imax), intMinDoubleAbs=int(imin), fixedPrec=fixed_prec, dblDig=int(md.group(1)))
+
+
 def render(tree):
     tab, c, logs = extract(tree)
-    out = [csrc.lean_header("src/core/strtod.c"), "namespace JanetModel.Gen.Strtod\n"]
+    c.update(extract_pp(tree))
+    out = [csrc.lean_header("src/core/strtod.c, src/core/pp.c, src/include/janet.h"), "namespace JanetModel.Gen.Strtod\n"]
     out.append("/-- `digit_lookup[128]` -/")
     out.append("abbrev digitLookup : Array Nat := #[" + ", ".join(str(v) for v in tab) + "]\n")
     for k in ("nbit", "bigBase", "window", "mantBits", "mantMax", "approxPerDigit", "approxBias", "shamtBase", "shamtDiv",
-              "lenLimit", "eeLimit", "intLenLimit", "u64Max", "i64Max", "printDigits"):
+              "lenLimit", "eeLimit", "intLenLimit", "u64Max", "i64Max", "printDigits",
+              "intMaxDouble", "intMinDoubleAbs", "fixedPrec", "dblDig"):
         out.append("abbrev %s : Nat := %d" % (k, c[k]))
     for k in ("hugeThresh", "tinyThresh"):
         out.append("abbrev %s : Int := %s" % (k, ("(%d)" % c[k]) if c[k] < 0 else str(c[k])))
